@@ -530,7 +530,7 @@ func init() {
 		"graphConnectedCall findings are excluded: they come from a third-party package that accumulates state across calls and they name no file (DESIGN.md section 6 row 22)",
 		"directory-based passes (bad-smell, API) are given a directory holding copies of the listed files; paths are compared relative to that directory",
 		"functions inside a type are compared sorted by line: their order is map order (C08)")
-	pbt.Register("files", 120, 800, gen, check)
+	pbt.Register("files", 250, 1000, gen, check)
 	pbt.Register("graphs", 3000, 30000, genGraph, checkGraph)
 }
 
